@@ -194,6 +194,7 @@ def main(argv=None):
     ap.add_argument("--only", help="run only configurations whose key contains this substring")
     ap.add_argument("--jobs", type=int, default=int(os.environ.get("VERIF_JOBS", "16")))
     ap.add_argument("--no-evidence", action="store_true")
+    ap.add_argument("--max-violations", type=int, default=int(os.environ.get("VERIF_MAX_VIOLATIONS", "12")), help="stop scheduling configurations once this many new (config, obligation) violations were replayed (the run fails anyway)")
     ap.add_argument("-v", action="store_true")
     a = ap.parse_args(argv)
     pid = a.pid.upper()
@@ -222,12 +223,25 @@ def main(argv=None):
             print(f"HARNESS-ERROR property={pid} conformance failed: {e}")
             sys.exit(2)
     results = []
+    known_early = load_known(pid)
+    new_viol = set()
+    stopped_early = False
+
+    def note(r):
+        for x in r.get("records", []):
+            if x.get("verdict") == "violated" and match_known(known_early, r["key"], x["name"]) is None:
+                new_viol.add((r["key"], x["name"]))
+        return len(new_viol) >= a.max_violations
+
     jobs = [(pid, c, a.tier) for c in cfgs]
     # longest first
     jobs.sort(key=lambda j: -j[1].get("cost", 1))
     if a.jobs <= 1 or len(jobs) <= 1:
         for j in jobs:
             results.append(worker(j))
+            if note(results[-1]):
+                stopped_early = len(results) < len(jobs)
+                break
     else:
         ctxm = mp.get_context("spawn")
         with ctxm.Pool(min(a.jobs, len(jobs)), maxtasksperchild=40) as pool:
@@ -236,6 +250,9 @@ def main(argv=None):
                 if a.v:
                     nv = sum(1 for x in r["records"] if x["verdict"] == "violated")
                     print(f"  [{len(results)}/{len(jobs)}] {r['key']} paths={r['paths']} obligations={len(r['records'])} violated={nv} {r['seconds']}s {r['error'] or ''}", flush=True)
+                if note(r):
+                    stopped_early = len(results) < len(jobs)
+                    break  # leaving the `with` block terminates the pool: the run already fails, the remaining configurations are not needed
     results.sort(key=lambda r: r["key"])
     known = load_known(pid)
     n_obl = n_proved = n_incon = 0
@@ -332,6 +349,8 @@ def main(argv=None):
             "distinct_nontrivial": nontrivial,
             "rule": getattr(mod, "RULE", "one evaluation = one configuration (entry point x option set x shape) executed symbolically over all feasible paths; non-trivial = at least one obligation reached; configurations are distinct by key"),
             "configurations": len(results),
+            "configurations_scheduled": len(jobs),
+            "stopped_early_after_violations": stopped_early,
             "paths": total_paths,
             "paths_outside_claim_division_by_zero": n_undefined,
             "queries_by_verdict": agg_stats,
@@ -355,6 +374,8 @@ def main(argv=None):
         os.makedirs(os.path.join(ROOT, "evidence"), exist_ok=True)
         with open(os.path.join(ROOT, "evidence", f"{pid}.json"), "w") as f:
             json.dump(ev, f, indent=1, default=str)
+    if stopped_early:
+        print(f"STOPPED-EARLY property={pid} after {len(new_viol)} new violations: {len(results)} of {len(jobs)} configurations were run")
     print(f"SUMMARY property={pid} tier={a.tier} configs={len(results)} paths={total_paths} obligations={n_obl} proved={n_proved} inconclusive={n_incon} known={sum(len(v) for v in known_hits.values())} new_violations={len(violations)} solver_s={solver_s:.1f} wall_s={wall:.1f}")
     if violations:
         sys.exit(1)
